@@ -18,7 +18,7 @@ def Validator.check : Validator → JVal → Except Err Unit
     match v with
     | .str s => ensure (strStartsWith s "http://" || strStartsWith s "https://") .valueError
     | _ => .error .valueError
-  | .int, v => ensure v.isInt .valueError          -- note: `isinstance(True, int)`
+  | .int, v => ensure (v.isInt && !v.isBool) .valueError   -- `bool` is excluded explicitly
   | .bool, v => ensure v.isBool .valueError
   | .listStr, v =>
     match v with
@@ -58,15 +58,15 @@ def pyIn (k : JVal) (c : JVal) : Except Err Bool :=
 def checkCritHeader (h : JVal) : Except Err Unit := do
   if ← pyInStr "crit" h then
     let crit ← pyGetItemStr h "crit"
+    Validator.listStr.check crit
     let ks ← pyIter crit
-    ks.forM fun k => do
-      if !(← pyIn k h) then throw .valueError
+    ks.forM fun k => do ensure (← pyIn k h) .valueError
 
 /-- `validate_registry_header(registry, header, check_required)`. -/
 def validateRegistryHeader (reg : HeaderRegistry) (h : JVal) (checkRequired : Bool := true) : Except Err Unit :=
   reg.forM fun p => do
     let present ← pyInStr p.name h
-    if checkRequired && p.required && !present then throw .valueError
+    ensure (!(checkRequired && p.required && !present)) .valueError
     if present then
       let v ← pyGetItemStr h p.name
       p.validator.check v
@@ -95,11 +95,8 @@ structure JwsRegistry where
 
 def findJwsAlg (algs : List JwsAlgRow) (name : String) : Option JwsAlgRow := algs.find? (·.name == name)
 
-/-- Python `if self.allowed:` — `None` and `[]` are both falsy. -/
-def allowedActive (allowed : Option (List String)) : Option (List String) :=
-  match allowed with
-  | some (x :: xs) => some (x :: xs)
-  | _ => none
+/-- Python `if self.allowed is not None:` — an explicit empty list allows nothing. -/
+def allowedActive (allowed : Option (List String)) : Option (List String) := allowed
 
 /-- `name not in table` / `name in list` for an arbitrary header value used as a name. -/
 def nameOf (name : JVal) : Except Err (Option String) :=
@@ -129,13 +126,21 @@ def safeB64Header (h : JVal) : Except Err Unit :=
     | _ => .error .valueError
   | _ => .error .attributeError                       -- `header.get`
 
+/-- RFC 7797 subclass: `if "b64" in header: _safe_b64_header(header)`. -/
+def b64Step (rfc7797 : Bool) (h : JVal) : Except Err Unit :=
+  if rfc7797 then do
+    if ← pyInStr "b64" h then safeB64Header h else pure ()
+  else pure ()
+
+def strictStep (strict : Bool) (reg : HeaderRegistry) (h : JVal) : Except Err Unit :=
+  if strict then checkSupportedHeader reg h else pure ()
+
 /-- `JWSRegistry.check_header` (both the base class and the RFC 7797 subclass). -/
 def JwsRegistry.checkHeader (r : JwsRegistry) (h : JVal) : Except Err Unit := do
-  if r.rfc7797 then
-    if ← pyInStr "b64" h then safeB64Header h
+  b64Step r.rfc7797 h
   checkCritHeader h
   validateRegistryHeader r.headerRegistry h
-  if r.strict then checkSupportedHeader r.headerRegistry h
+  strictStep r.strict r.headerRegistry h
 
 /-! ## JWE registry -/
 
